@@ -113,6 +113,12 @@ package scheduler
 //@   props C05 C01
 //@   ensures exactly-the-removed-queue-leaves-the-list:
 //@             len(pq.sizeClassQueues) == old(len(pq.sizeClassQueues)) - 1 && len(pq.sizeClasses) == old(len(pq.sizeClasses)) - 1
+//@   ensures the-queue-after-the-removed-one-moves-into-its-slot:
+//@             i < len(pq.sizeClassQueues) ==> pq.sizeClassQueues[i] == old(pq.sizeClassQueues[i+1])
+//@   ensures the-size-class-after-the-removed-one-moves-into-its-slot:
+//@             i < len(pq.sizeClasses) ==> pq.sizeClasses[i] == old(pq.sizeClasses[i+1])
+//@   ensures entries-before-the-removed-one-stay:
+//@             forall j int :: 0 <= j && j < i ==> pq.sizeClassQueues[j] == old(pq.sizeClassQueues[j]) && pq.sizeClasses[j] == old(pq.sizeClasses[j])
 //@   ensures removed-platform-no-longer-resolves:
 //@             len(pq.sizeClasses) == 0 ==> triemap[bq.platformQueuesTrie][*(&pq.platformKey)] == 0
 //@   ensures moved-queue-resolves-to-the-freed-slot:
